@@ -5,7 +5,7 @@ from vmc.gen import scenes
 from vmc.oracles import aff, flatten, paths, shaper
 from vmc.props import common
 
-KEEP = ("vb_origin", "vb_size", "vb_aspect", "metrics", "width", "user", "tol", "clipq", "outline", "stack", "place", "where", "grp", "nglyphs", "fmt", "copy_paint", "vb_b", "clone")
+KEEP = ("vb_origin", "vb_size", "vb_aspect", "metrics", "width", "user", "tol", "clipq", "outline", "stack", "place", "where", "grp", "nglyphs", "fmt", "copy_paint", "vb_b", "clone", "lin_stops", "rad_stops")
 DIMS = {k: scenes.DIMS[k] for k in KEEP}
 FULL = dict(scenes.DIMS)
 K = {"quick": 2, "thorough": 3}
